@@ -524,16 +524,33 @@ fn bloom_case(cap: usize, p: f64, kind: SetKind, rng: &mut Rng, rep: &mut Report
             desc.clone(),
         );
     }
-    // structured probes: measured only (no bound is claimed for probes correlated with the set)
-    if !matches!(kind, SetKind::Uniform) {
-        let mut sfp = 0u64;
-        for i in 0..2000u64 {
-            let q = bloom_hash(kind, cap as u64 + 1 + i, base);
-            if !added_set.contains(&q) && b.contains(q) {
+    // structured probes (the statement quantifies over every probe hash, "including hashes that differ
+    // only in high or only in low bits"): each family of never-added hashes obeys the same bound
+    for probe_kind in [SetKind::OnlyHigh, SetKind::OnlyLow, SetKind::Sequential] {
+        let n = 4000u64;
+        let (mut sfp, mut asked) = (0u64, 0u64);
+        for i in 0..n {
+            let q = bloom_hash(probe_kind, cap as u64 + 1 + i, base);
+            if added_set.contains(&q) {
+                continue;
+            }
+            asked += 1;
+            if b.contains(q) {
                 sfp += 1;
             }
         }
-        rep.add("c14_structured_probe_positives_of_2000_measured_only", sfp);
+        rep.add("c14_structured_probes", asked);
+        rep.add("c14_structured_probe_positives", sfp);
+        let mean = 3.0 * p * asked as f64;
+        let thr = mean + 7.0 * (mean * (1.0 - 3.0 * p)).sqrt() + 1.0;
+        if (sfp as f64) > thr {
+            rep.violate(
+                "C14",
+                &format!("false-positive-rate/{}-probes", format!("{probe_kind:?}").to_lowercase()),
+                format!("capacity {cap}, target {p}, added set {kind:?}: {sfp}/{asked} never-added {probe_kind:?} hashes reported present (rate {:.4}, allowed {:.4}); filter params (words,mask,exp,locs,shift)={params:?}", sfp as f64 / asked.max(1) as f64, thr / asked.max(1) as f64),
+                desc.clone(),
+            );
+        }
     }
     // reset / clear empty the filter completely
     if rng.chance(1, 2) {
